@@ -22,14 +22,15 @@ type TV struct {
 }
 
 type Env struct {
-	vars   map[string]TV
-	cur    *State
-	old    *State
-	pkg    *types.Package
-	e      *Engine
-	fr     *Frame // optional: named locals of the function
-	atLoop bool
-	bound  map[string]bool
+	vars    map[string]TV
+	cur     *State
+	old     *State
+	pkg     *types.Package
+	e       *Engine
+	fr      *Frame // optional: named locals of the function
+	atLoop  bool
+	witness []string // index-sorted candidate witnesses for exists()
+	bound   map[string]bool
 }
 
 func (env *Env) with(name string, tv TV) *Env {
@@ -242,9 +243,9 @@ func (e *Engine) localByName(env *Env, name string) (TV, bool) {
 	fr := env.fr
 	want := name
 	ord := 0
-	if i := strings.Index(name, "#"); i >= 0 {
+	if i := strings.Index(name, "__"); i > 0 {
 		want = name[:i]
-		ord, _ = strconv.Atoi(name[i+1:])
+		ord, _ = strconv.Atoi(name[i+2:])
 	}
 	k := 0
 	for _, b := range fr.fn.Blocks {
@@ -509,6 +510,9 @@ func exprString(x ast.Expr) string {
 func (e *Engine) resolveType(env *Env, x ast.Expr) types.Type {
 	switch v := x.(type) {
 	case *ast.Ident:
+		if v.Name == "mathint" {
+			return mathIntT
+		}
 		if obj := types.Universe.Lookup(v.Name); obj != nil {
 			if tn, ok := obj.(*types.TypeName); ok {
 				return tn.Type()
@@ -866,7 +870,22 @@ func (e *Engine) evalCall(env *Env, c *ast.CallExpr) TV {
 		if fname == "forall" {
 			return TV{V: &Sc{fmt.Sprintf("(forall ((%s %s)) %s)", q, srt, implies(rng, body))}, T: boolT}
 		}
-		return TV{V: &Sc{fmt.Sprintf("(exists ((%s %s)) %s)", q, srt, and(rng, body))}, T: boolT}
+		ex := fmt.Sprintf("(exists ((%s %s)) %s)", q, srt, and(rng, body))
+		// candidate witnesses: each instance implies the existential, so proving
+		// the disjunction of the instances proves it (the goal is only made
+		// stronger; used in postconditions of the function under verification)
+		if len(env.witness) > 0 {
+			ex = "false"
+		}
+		for _, w := range env.witness {
+			e.vc.noDef++
+			inst := func() string {
+				defer func() { e.vc.noDef-- }()
+				return e.evalBool(env.with(kid.Name, TV{V: &Sc{w}, T: intT}), c.Args[3])
+			}()
+			ex = or(ex, and(and(e.idxLe(lo, w), e.idxLt(w, hi)), inst))
+		}
+		return TV{V: &Sc{ex}, T: boolT}
 	case "all", "some":
 		// all(k, T, P): k ranges over the whole type T
 		kid, ok := c.Args[0].(*ast.Ident)
@@ -946,6 +965,13 @@ func (e *Engine) evalCall(env *Env, c *ast.CallExpr) TV {
 		return TV{V: &Sc{ite(e.ar.Cmp(op, as, bs, s), as, bs)}, T: a.T}
 	case "mathint":
 		return e.toMath(e.eval(env, c.Args[0]))
+	case "unixnano":
+		// unixnano(t): the instant t as mathematical nanoseconds since the epoch
+		x := e.eval(env, c.Args[0])
+		if !isTimeType(x.T) {
+			sfail("unixnano of non-time value")
+		}
+		return TV{V: x.V, T: mathIntT}
 	case "fits":
 		// fits(m, x): the mathematical integer m is representable in the type of x
 		m := e.toMath(e.eval(env, c.Args[0]))
@@ -1059,7 +1085,15 @@ func (e *Engine) convertTV(x TV, t types.Type) TV {
 // popcount as an exact sum of bits (bv mode only)
 func (e *Engine) popcount(x string, w int) string {
 	if e.ar.mode != ModeBV {
-		sfail("popcount needs the bv encoding")
+		// int encoding: an uninterpreted function with its range (the bit-level
+		// meaning is only available to bv-mode functions and lemmas)
+		name := fmt.Sprintf("popcnt%d", w)
+		if !e.vc.specDecl[name] {
+			e.vc.specDecl[name] = true
+			e.vc.decls = append(e.vc.decls, fmt.Sprintf("(declare-fun %s (Int) Int)", name),
+				fmt.Sprintf("(assert (forall ((x Int)) (! (and (<= 0 (%s x)) (<= (%s x) %d)) :pattern ((%s x)))))", name, name, w, name))
+		}
+		return fmt.Sprintf("(%s %s)", name, x)
 	}
 	name := fmt.Sprintf("popcount%d", w)
 	if !e.vc.specDecl[name] {
@@ -1129,6 +1163,11 @@ func (e *Engine) declareSpec(env *Env, sf *SpecFunc) {
 	}
 	if sf.Uninterp || sf.Rec || sf.Body == nil {
 		e.vc.decls = append(e.vc.decls, fmt.Sprintf("(declare-fun %s (%s) %s)", sf.Name, strings.Join(psorts, " "), rl[0].Sort))
+		if sf.Name == "instream" {
+			for k := 0; k < replayElems; k++ {
+				e.vc.addModelTerm(fmt.Sprintf("(instream %d)", k), fmt.Sprintf("instream:%d", k))
+			}
+		}
 		if e.ar.mode == ModeInt && rl[0].Kind == lkInt && !sf.Uninterp {
 			// result is in the range of its type (every spec function is typed)
 		}
